@@ -17,3 +17,4 @@ OBLIGATIONS = OBLIGATIONS + [K.STREAM_SIBS]
 OBLIGATIONS = OBLIGATIONS + [K.ZOOMCOUNT_SIBS]
 OBLIGATIONS = OBLIGATIONS + [K.PROCESSOR_ARGS]
 OBLIGATIONS = OBLIGATIONS + [K.PROCESS_DATA]
+OBLIGATIONS = OBLIGATIONS + [K.CHROM_TREE_COUNT]
